@@ -40,6 +40,8 @@ class DeepTracer(Tracer):
         self.quiet = 0              # > 0: inside an oracle (its own entropy is not an oracle of the handler)
         self.hlines = []            # (line, expected, context) for `hcall`
         self.xlines = []            # (line, expected, context) for `xiter`
+        self.runs = {}              # endpoint -> list of segments; a segment = {'init': tokens, 'rounds': [(tokens, expected)]} for `xrun`
+        self.last_post = {}         # endpoint -> the state after its last iteration, rendered the way a pre-state is
         self.osaved = {}
         self.step_pre = None
         super().__init__(world)
@@ -332,6 +334,13 @@ class DeepTracer(Tracer):
             pre += self.r_xent(s, pre_objs)
         self.step_pre = pre
         self.step_sad = self.r_sad(ep.kernel)
+        # does this iteration start where the last one of this endpoint ended?  (anything else means the state was changed from outside
+        # the loop — a scenario set a timer by hand, objects were removed — and a new run of rounds begins)
+        state = [str(len(pre_objs))] + [x for s in pre_objs for x in self.r_xent(s, pre_objs)] + self.step_sad
+        self.step_state = (confs, state)
+        segs = self.runs.setdefault(ep.name, [])
+        if not segs or self.last_post.get(ep.name) != state or len(segs[-1]['rounds']) >= 40:
+            segs.append({'init': [str(len(confs))] + [x for c in confs for x in c] + state, 'rounds': [], 'ep': ep.name})
 
     def step_end(self, ep, info):
         line = ['xiter', str(ticks(info['now'])), str(info['thr'])] + self.step_pre + info['event'] + self.r_tape(self.oracle) + self.step_sad
@@ -345,6 +354,12 @@ class DeepTracer(Tracer):
         exp += info['tail']
         exp += self.r_sad(ep.kernel)      # the kernel after the round = the round's netlink requests applied in order (wholeStep)
         self.xlines.append((' '.join(line), ' '.join(exp), {'ep': ep.name, 'ok': not info['interrupted'], 'kind': info['kind'], 'now': info['now']}))
+        if info['interrupted']:
+            self.last_post[ep.name] = None          # the loop's catch-all ended this iteration somewhere in the middle: start afresh
+        else:
+            self.runs[ep.name][-1]['rounds'].append(([str(ticks(info['now']))] + info['event'] + self.r_tape(self.oracle), ' '.join(exp)))
+            self.runs[ep.name][-1]['thr'] = info['thr']
+            self.last_post[ep.name] = [str(len(post))] + [x for s in post for x in self.r_xent(s, post)] + self.r_sad(ep.kernel)
 
     # ------------------------------------------------------------- comparison
     def check_handlers(self, driver, limit=20):
@@ -357,6 +372,27 @@ class DeepTracer(Tracer):
                     if len(bad) >= limit:
                         break
         return bad
+
+    def check_runs(self, driver, limit=5):
+        """every maximal run of consecutive iterations of one endpoint, replayed with the model carrying its OWN state from round to round"""
+        segs = [g for gs in self.runs.values() for g in gs if len(g['rounds']) >= 2]
+        bad = []
+        if not segs:
+            return bad, 0, 0
+        lines = []
+        for g in segs:
+            toks = ['xrun', str(g['thr'])] + g['init'] + [str(len(g['rounds']))] + [x for r, _ in g['rounds'] for x in r]
+            lines.append(' '.join(toks))
+        outs = driver.run(lines)
+        for g, out in zip(segs, outs):
+            got = out.split(' | ')
+            want = [e for _, e in g['rounds']]
+            if got != want:
+                k = next((i for i, (a, b) in enumerate(zip(got, want)) if a != b), min(len(got), len(want)))
+                bad.append((g, k, want[k] if k < len(want) else '<end>', got[k] if k < len(got) else '<end>'))
+                if len(bad) >= limit:
+                    break
+        return bad, len(segs), sum(len(g['rounds']) for g in segs)
 
     def check_whole(self, driver, limit=20):
         bad = []
